@@ -183,3 +183,106 @@ def norm(e: ast.AST) -> str:
     """Normalised one-line rendering of an expression/statement used in
     construct keys (independent of layout and line numbers)."""
     return ' '.join(unparse(e).split())[:120]
+
+
+def linear(e: ast.AST, subst: Optional[Callable[[ast.AST], Optional[ast.AST]]] = None,
+           depth: int = 0) -> Optional[Dict[str, int]]:
+    """Linear form {symbol: coefficient, '': constant} of an integer
+    expression built from names/attributes, constants, + and -; None if the
+    expression is outside that language.  `subst` may replace a name by its
+    defining expression."""
+    if depth > 10:
+        return None
+    if isinstance(e, ast.Constant) and isinstance(e.value, int):
+        return {'': e.value}
+    d = dotted(e) if isinstance(e, (ast.Name, ast.Attribute)) else None
+    if d and '()' not in d:
+        if subst is not None:
+            r = subst(e)
+            if r is not None:
+                return linear(r, subst, depth + 1)
+        return {d: 1}
+    if isinstance(e, ast.UnaryOp) and isinstance(e.op, ast.USub):
+        a = linear(e.operand, subst, depth + 1)
+        return None if a is None else {k: -v for k, v in a.items()}
+    if isinstance(e, ast.BinOp) and isinstance(e.op, (ast.Add, ast.Sub)):
+        a = linear(e.left, subst, depth + 1)
+        b = linear(e.right, subst, depth + 1)
+        if a is None or b is None:
+            return None
+        sign = 1 if isinstance(e.op, ast.Add) else -1
+        out = dict(a)
+        for k, v in b.items():
+            out[k] = out.get(k, 0) + sign * v
+        return {k: v for k, v in out.items() if v != 0 or k == ''}
+    if isinstance(e, ast.Call) and dotted(e.func) == 'len' and len(e.args) == 1:
+        inner = dotted(e.args[0])
+        if inner:
+            return {f'len({inner})': 1}
+    return None
+
+
+def lin_eq(a: Optional[Dict[str, int]], b: Optional[Dict[str, int]]) -> bool:
+    if a is None or b is None:
+        return False
+    keys = set(a) | set(b)
+    return all(a.get(k, 0) == b.get(k, 0) for k in keys)
+
+
+def cmp_bound(n: Node, small: Callable[[ast.AST], bool],
+              big: Callable[[ast.AST], bool]) -> Optional[bool]:
+    """For an atom comparing S (matching `small`) with B (matching `big`):
+    the edge label on which  S <= B  (S bounded by B) is guaranteed.
+    `S > B` → False edge, `S <= B` → True edge, mirrored forms likewise.
+    Strict/non-strict both accepted (S < B also bounds S by B)."""
+    a = n.ast
+    if n.kind != 'atom' or not isinstance(a, ast.Compare) or len(a.ops) != 1:
+        return None
+    l, r, op = a.left, a.comparators[0], a.ops[0]
+    if small(l) and big(r):
+        if isinstance(op, (ast.Gt,)):
+            return False
+        if isinstance(op, (ast.LtE, ast.Lt)):
+            return True
+    if big(l) and small(r):
+        if isinstance(op, (ast.Lt,)):
+            return False
+        if isinstance(op, (ast.GtE, ast.Gt)):
+            return True
+    return None
+
+
+def positive_guard(name: str) -> Callable[[Node], Optional[bool]]:
+    """Atom valuation: edge on which `name` is known to be >= 1."""
+    def val(n: Node) -> Optional[bool]:
+        a = n.ast
+        if n.kind != 'atom' or not isinstance(a, ast.Compare) or \
+                len(a.ops) != 1:
+            return None
+        l, r, op = a.left, a.comparators[0], a.ops[0]
+
+        def c(x):
+            return x.value if isinstance(x, ast.Constant) and \
+                isinstance(x.value, int) else None
+        if dotted(l) == name and c(r) is not None:
+            k = c(r)
+            if isinstance(op, ast.LtE) and k >= 0:
+                return False        # not (x <= k>=0)  ⇒ x >= 1
+            if isinstance(op, ast.Lt) and k >= 1:
+                return False
+            if isinstance(op, ast.Gt) and k >= 0:
+                return True
+            if isinstance(op, ast.GtE) and k >= 1:
+                return True
+        if dotted(r) == name and c(l) is not None:
+            k = c(l)
+            if isinstance(op, ast.GtE) and k >= 0:
+                return False        # not (k >= x)
+            if isinstance(op, ast.Gt) and k >= 1:
+                return False
+            if isinstance(op, ast.Lt) and k >= 0:
+                return True
+            if isinstance(op, ast.LtE) and k >= 1:
+                return True
+        return None
+    return val
